@@ -85,7 +85,14 @@ def sig_overlap(w):
 
 SIGNATURES = {'stdout-overlap-threads': sig_overlap}
 
-CAPS = {True: 'yes', False: 'no', None: 'devnull'}
+
+
+def cap_class(c):
+    """`if capture_io:` / `capture_io is False` / anything else falsy"""
+    if c is False:
+        return 'no'
+    return 'yes' if c else 'devnull'
+
 
 
 # ----------------------------------------------------------------------------------------------
@@ -108,7 +115,7 @@ def py_req(a):
 def cmd_req(a, cap):
     expand = a.get('expand', 'ok') != 'ok'
     out, err = ('', '') if expand else actlib.expected_streams(a)
-    return {'model': 'act', 'op': 'cmd', 'expandRaises': expand, 'cap': CAPS[cap if cap in (False, None) else True],
+    return {'model': 'act', 'op': 'cmd', 'expandRaises': expand, 'cap': cap_class(cap),
             'saveOut': a.get('save_out'), 'rc': actlib.expected_rc(a), 'out': out, 'err': err}
 
 
@@ -117,11 +124,11 @@ def requests_for(case):
     if k == 'py':
         cap = case.get('capture', True)
         return [py_req(case), {'model': 'act', 'op': 'route', 'v': case.get('v'), 'kind': 'py',
-                               'cap': CAPS[cap if cap in (False, None) else True]}]
+                               'cap': cap_class(cap)}]
     if k == 'cmd':
         cap = case.get('capture', True)
         return [cmd_req(case, cap), {'model': 'act', 'op': 'route', 'v': case.get('v'), 'kind': 'cmd',
-                                     'cap': CAPS[cap if cap in (False, None) else True]}]
+                                     'cap': cap_class(cap)}]
     if k == 'task':
         cap = case.get('capture', True)
         acts = [py_req(a) if a['t'] == 'py' else cmd_req(a, cap) for a in case['actions']]
@@ -185,7 +192,7 @@ def judge(case, obs, model):
         cmp('cell-not-restored', 'P', obs['restored'], [True, True])
     elif k == 'task':
         m = model[0]
-        cmp('task-outcome', 'P', obs['outcome'], m['outcome'])
+        cmp('task-outcome', 'K' if m['outcome'] == 'raised' else 'P', obs['outcome'], m['outcome'])
         cmp('task-ran', 'P', obs['ran'], list(range(m['ran'])))
         cmp('task-result', 'P', obs['result'], m['result'])
         cmp('task-values', 'P', obs['values'], m['values'])
@@ -434,6 +441,10 @@ def count_case(st, case):
             st.count('py.kwargs_raise')
         if case.get('swap', 'none') != 'none':
             st.count('py.swap')
+        if case.get('direct'):
+            st.count('py.direct' + ('.notask' if case.get('notask') else ''))
+        if case.get('repeat', 1) > 1:
+            st.count('py.repeat')
         st.count('py.writes:%s' % min(4, len(case.get('writes', []))))
     elif k == 'cmd':
         ex = case.get('exit', ['status', 0])
@@ -522,6 +533,7 @@ TEXTS = ['a', 'line\n', 'no newline', '', 'ünï☃\n', 'x' * 100 + '\n', '\n\n'
 STRS = ['', 'abc', 'ünï☃', 'x' * 50, 'False', '0']
 VERBS = [0, 1, 2, None]
 CAPTURES = [True, False, None]
+ODD_CAPTURES = [1, 0, '', 'yes']
 
 
 def all_rets():
@@ -560,7 +572,9 @@ def gen_writes(rng):
 
 def gen_py(rng):
     c = {'kind': 'py', 'ret': gen_ret(rng), 'writes': gen_writes(rng), 'v': rng.choice(VERBS),
-         'capture': rng.choice([True, True, True, False, None])}
+         'capture': rng.choice([True, True, True, False, None] if rng.random() < 0.93 else ODD_CAPTURES)}
+    if rng.random() < 0.15:
+        c['repeat'] = 2
     r = rng.random()
     if r < 0.12:
         c['kwargs_raise'] = rng.choice(actlib.KW_REPS)
@@ -569,6 +583,8 @@ def gen_py(rng):
     elif r < 0.4:
         c['direct'] = True
         c['v'] = rng.choice([0, 1, 2])
+        if c['capture'] is True and rng.random() < 0.3:
+            c['notask'] = True
     return c
 
 
@@ -602,10 +618,13 @@ def gen_exit(rng):
 
 def gen_cmd(rng, big=False):
     c = {'kind': 'cmd', 'chunks': [[rng.choice('ooe'), gen_chunk(rng, big)] for _ in range(rng.randint(0, 5))],
-         'exit': gen_exit(rng), 'v': rng.choice(VERBS), 'capture': rng.choice([True, True, True, False, None]),
+         'exit': gen_exit(rng), 'v': rng.choice(VERBS),
+         'capture': rng.choice([True, True, True, False, None] if rng.random() < 0.9 else ODD_CAPTURES),
          'save_out': rng.choice([None, None, 0, 3]), 'form': rng.choice(['str', 'str', 'list', 'callable'])}
     if rng.random() < 0.06:
         c['expand'] = rng.choice(['badkey', 'badelem', 'callable_raises'])
+    if rng.random() < 0.1:
+        c['repeat'] = 2
     return c
 
 
@@ -728,6 +747,14 @@ def exhaustive_py():
         for cap in CAPTURES:
             for v in VERBS:
                 out.append({'kind': 'py', 'ret': copy.deepcopy(ret), 'writes': writes, 'v': v, 'capture': cap})
+    for cap in ODD_CAPTURES:
+        for v in VERBS:
+            out.append({'kind': 'py', 'ret': {'cat': 'str', 's': 'r'}, 'writes': writes, 'v': v, 'capture': cap})
+    for ret in ({'cat': 'true'}, {'cat': 'raises', 'rep': 'ValueError'}, {'cat': 'str', 's': 'r'}):
+        for v in (0, 1, 2):
+            out.append({'kind': 'py', 'ret': ret, 'writes': writes, 'v': v, 'capture': True, 'direct': True,
+                        'notask': True})
+            out.append({'kind': 'py', 'ret': ret, 'writes': writes, 'v': v, 'capture': True, 'repeat': 2})
     for kw in actlib.KW_REPS:
         for cap in CAPTURES:
             for v in VERBS:
@@ -761,6 +788,9 @@ def exhaustive_cmd(full):
             for ex in (['status', 0], ['status', 7], ['status', 126], ['childsignal', 9]):
                 for so in (None, 2):
                     out.append({'kind': 'cmd', 'chunks': chunks, 'exit': ex, 'v': v, 'capture': cap, 'save_out': so})
+    for cap in ODD_CAPTURES:
+        for v in (0, 2):
+            out.append({'kind': 'cmd', 'chunks': chunks, 'exit': ['status', 0], 'v': v, 'capture': cap, 'save_out': 2})
     for expand in ('badkey', 'badelem', 'callable_raises'):
         for cap in CAPTURES:
             out.append({'kind': 'cmd', 'chunks': chunks, 'exit': ['status', 0], 'v': 2, 'capture': cap,
@@ -868,7 +898,7 @@ def build_cases(ctx, scale):
     cases += exhaustive_task(2 if quick else 3, 2 if quick else 2)
     cases += exhaustive_overlap()
     cases += exhaustive_nested()
-    n = {'py': 1500, 'cmd': 500, 'task': 800, 'nested': 500, 'overlap': 120} if quick else \
+    n = {'py': 3000, 'cmd': 900, 'task': 1500, 'nested': 1200, 'overlap': 160} if quick else \
         {'py': 30000, 'cmd': 12000, 'task': 20000, 'nested': 12000, 'overlap': 1500}
     for kind, gen in (('py', gen_py), ('cmd', gen_cmd), ('task', gen_task), ('nested', gen_nested),
                       ('overlap', gen_overlap)):
